@@ -20,9 +20,9 @@ const c12Fuel = 100000
 
 func init() {
 	register(&Prop{ID: "C12", Run: c12Run,
-		Rule: "action trees whose nodes carry subsets of {set, template, log, ext trace, abort} (each op tagged with its node's unique name), a condition from {none, \"true\", \"false\", {{ .flagT }}, {{ .flagF }}, \"\" (present but blank)} (random trees also: other boolean spellings, constant texts that are no boolean, blank and white-space-only texts — a non-nil pointer to \"\" / `when: \"\"`, `when: \"  \"` — at any depth, a flag written by ANOTHER action's set, which is a missing-field error when that action has not run, and the text ANOTHER action's template operation stores) and distinct sibling orders (children listed in shuffled order). Set operations of random trees (VALUE RANGE): mostly the standard payload at the action's own path, also data that is present but EMPTY (`data: {}`: legal — nothing to merge at the root, an empty container created or kept at a path; the run goes on), data that is ABSENT (the one case in which set fails), payloads holding empty-but-present values (empty map, empty list, \"\", null), the root or an existing container as target, an explicit strategy (merge, replace, unknown ones — an error); boolean literals in every spelling of strconv.ParseBool's table (1 t T TRUE true True 0 f F FALSE false False, white space around them). Log and abort messages of random trees: now and then with white space around them, a final line end, other letter case, non-ASCII text, a `}}` before the first action, empty. Template operations of random trees render a non-boolean text, a boolean, or PARSE AND FAIL WHILE EXECUTING after having produced output (field of a scalar, index of a missing key, undefined associated template, sprig's fail), or DO NOT PARSE at all (an opening `{{` that no `}}` follows, after any text — rendered actions and a stray `}}` included —, a block keyword on its own, an undefined function): the failing operation stops the run and the final data of the failed run are compared like any other. 'enum' cases: the scope root(16 op subsets of size<=2 x 6 conditions) x 0..2 children (6 op subsets of size<=1 x 6 conditions each) — sampled in the quick tier, exhaustive in the thorough tier; 'tree' cases: random trees, depth<=5, fan-out<=4 (thorough: depth 3 trees drawn from the full per-node alphabet in addition). 'seq' cases: 2..3 actions executed one after the other by ONE executor on one data document (every call is made): each call must equal the reference on the data the earlier calls — failed ones included — left behind; later actions have conditions and templates that read the path an earlier template operation wrote to (first the minimal sequences: every kind of template text x top level / two levels down, then random ones). 'mixed' cases: nodes carrying subsets of ALL operation kinds the program form knows (also call, define, forEach, loop) on the same node — every pair of kinds on one node, then random trees; 'allops' cases (no model): one action carrying a subset of all sixteen OpSpec fields (patch, import, templateFile, env, exec, export, html2Dom included), each configured to succeed or to fail — every pair of fields, then random subsets — the operations that ran must be the fields present in the DOCUMENTED order (a literal copy of the field list at the pinned commit, not reflection on the type under test) up to the first failing one; 'hist' cases (HISTORY): one ActionSpec value executed 2..4 times, each time by a fresh executor with its own data, listener and ext registrations (a function name may trace in one run, fail in the next, be absent in a third): every run must equal the reference for THAT run. EQUIVALENT ENTRY POINTS: each enum / tree / mixed case is executed three times — built as Go structs and passed to Execute by value, the same passed as a pointer (Execute(&spec)), decoded from generated YAML; hist runs alternate between the spec value and a pointer to it, seq sequences pass every other struct-built action as a pointer and execute an action that occurs twice in the sequence as ONE value (the same Go objects) twice. 'seq' cases, also: THE CALLER EDITS THE DOCUMENT BETWEEN TWO RUNS (flips a flag the conditions read, takes away or replaces what the earlier runs left — through the container it handed to WithData()): the next run reads the document as it is then (first the minimal ones: one action executed twice, a guarded child whose flag the caller flips in between, the first run ending with a log / a set operation). 'mixed' cases, also: TEMPORARIES READ FROM OUTSIDE THEIR SCOPE — a log / abort message (now and then a condition) that reads the forEach variable or the call arguments of the node's own operations (Log and Abort are declared after Call and ForEach) or of a node that ran earlier: gone by then, for the template engine's view of the data too. LARGE cases (a few per run, no model: reference interpreter and trace predicates only): 'long' — ONE executor, one document, a pool of 3..4 actions (one or two failing a few levels down: abort, failing ext action, condition without a boolean value) executed 100..300 times in a random order, every call equal to the reference on the data it finds, every call's notifications well nested on their own; 'deep' — a chain of 60..300 nested actions, one level in eight carrying an operation, a small random tree at the bottom: every level entered, operations in nesting order. The recording listener reads the data document through the harness' own reference to the container it handed to WithData(), never through ctx.Data() (an observer must not be an access). Besides the model comparison every run is compared (direct predicate) with an independent Go reference interpreter (c12_ref.go: documented operation order, per-run ext registrations; a condition that is present must evaluate to a boolean — blank texts are no boolean —; rendering yields all of the text or none). Non-trivial: at least 2 actions and at least one operation (hist: at least 2 runs and an ext operation; allops: at least 2 fields; seq: at least 2 actions in sequence). Distinct = distinct canonical case JSON.",
+		Rule: "action trees whose nodes carry subsets of {set, template, log, ext trace, abort} (each op tagged with its node's unique name), a condition from {none, \"true\", \"false\", {{ .flagT }}, {{ .flagF }}, \"\" (present but blank)} (random trees also: other boolean spellings, constant texts that are no boolean, blank and white-space-only texts — a non-nil pointer to \"\" / `when: \"\"`, `when: \"  \"` — at any depth, a flag written by ANOTHER action's set, which is a missing-field error when that action has not run, and the text ANOTHER action's template operation stores) and distinct sibling orders (children listed in shuffled order). Set operations of random trees (VALUE RANGE): mostly the standard payload at the action's own path, also data that is present but EMPTY (`data: {}`: legal — nothing to merge at the root, an empty container created or kept at a path; the run goes on), data that is ABSENT (the one case in which set fails), payloads holding empty-but-present values (empty map, empty list, \"\", null), the root or an existing container as target, an explicit strategy (merge, replace, unknown ones — an error); boolean literals in every spelling of strconv.ParseBool's table (1 t T TRUE true True 0 f F FALSE false False, white space around them). Log and abort messages of random trees: now and then with white space around them, a final line end, other letter case, non-ASCII text, a `}}` before the first action, empty. Template operations of random trees render a non-boolean text, a boolean, or PARSE AND FAIL WHILE EXECUTING after having produced output (field of a scalar, index of a missing key, undefined associated template, sprig's fail), or DO NOT PARSE at all (an opening `{{` that no `}}` follows, after any text — rendered actions and a stray `}}` included —, a block keyword on its own, an undefined function): the failing operation stops the run and the final data of the failed run are compared like any other. 'enum' cases: the scope root(16 op subsets of size<=2 x 6 conditions) x 0..2 children (6 op subsets of size<=1 x 6 conditions each) — sampled in the quick tier, exhaustive in the thorough tier; 'tree' cases: random trees, depth<=5, fan-out<=4 (thorough: depth 3 trees drawn from the full per-node alphabet in addition). 'seq' cases: 2..3 actions executed one after the other by ONE executor on one data document (every call is made): each call must equal the reference on the data the earlier calls — failed ones included — left behind; later actions have conditions and templates that read the path an earlier template operation wrote to (first the minimal sequences: every kind of template text x top level / two levels down, then random ones). 'mixed' cases: nodes carrying subsets of ALL operation kinds the program form knows (also call, define, forEach, loop) on the same node — every pair of kinds on one node, then random trees; 'allops' cases (no model): one action carrying a subset of all sixteen OpSpec fields (patch, import, templateFile, env, exec, export, html2Dom included), each configured to succeed or to fail — every pair of fields, then random subsets — the operations that ran must be the fields present in the DOCUMENTED order (a literal copy of the field list at the pinned commit, not reflection on the type under test) up to the first failing one; 'hist' cases (HISTORY): one ActionSpec value executed 2..4 times, each time by a fresh executor with its own data, listener and ext registrations (a function name may trace in one run, fail in the next, be absent in a third): every run must equal the reference for THAT run. EQUIVALENT ENTRY POINTS: each enum / tree / mixed case is executed three times — built as Go structs and passed to Execute by value, the same passed as a pointer (Execute(&spec)), decoded from generated YAML; hist runs alternate between the spec value and a pointer to it, seq sequences pass every other struct-built action as a pointer and execute an action that occurs twice in the sequence as ONE value (the same Go objects) twice. 'seq' cases, also: THE CALLER EDITS THE DOCUMENT BETWEEN TWO RUNS (flips a flag the conditions read, takes away or replaces what the earlier runs left — through the container it handed to WithData()): the next run reads the document as it is then (first the minimal ones: one action executed twice, a guarded child whose flag the caller flips in between, the first run ending with a log / a set operation). 'mixed' cases, also: TEMPORARIES READ FROM OUTSIDE THEIR SCOPE — a log / abort message (now and then a condition) that reads the forEach variable or the call arguments of the node's own operations (Log and Abort are declared after Call and ForEach) or of a node that ran earlier: gone by then, for the template engine's view of the data too. EQUIVALENT SPELLINGS of a condition that reads data (random trees and sequences at the end of the run): two in three of the data-reading conditions are written {{ $.a.b }} (the root variable), {{ index . \"k\" }} or {{ index $ \"k\" }} (the index function with one key — the way to reach a key that is no identifier) instead of the field chain {{ .a.b }}, and one in eight of the unconditional actions gets a never-written flag in such a spelling: the same value, the same control flow. LARGE cases (a few per run, no model: reference interpreter and trace predicates only): 'long' — ONE executor, one document, a pool of 3..4 actions (one or two failing a few levels down: abort, failing ext action, condition without a boolean value) executed 100..300 times in a random order, every call equal to the reference on the data it finds, every call's notifications well nested on their own; 'deep' — a chain of 60..300 nested actions, one level in eight carrying an operation, a small random tree at the bottom: every level entered, operations in nesting order. The recording listener reads the data document through the harness' own reference to the container it handed to WithData(), never through ctx.Data() (an observer must not be an access). Besides the model comparison every run is compared (direct predicate) with an independent Go reference interpreter (c12_ref.go: documented operation order, per-run ext registrations; a condition that is present must evaluate to a boolean — blank texts are no boolean —; rendering yields all of the text or none). Non-trivial: at least 2 actions and at least one operation (hist: at least 2 runs and an ext operation; allops: at least 2 fields; seq: at least 2 actions in sequence). Distinct = distinct canonical case JSON.",
 		Assumptions: []string{
-			"template semantics owned by the model: literal text and {{ .a.b }} field chains of scalars only; strconv.ParseBool table applied to the rendered text with the white space strings.TrimSpace strips taken off (unicode.IsSpace: NBSP, NEL, U+2003 … included — the model's `trim` lists the same characters); any other action makes the rendering fail in the model — of those the generators use only actions that fail in text/template on every data once the template is executed ({{ template \"nope\" }} with no associated template defined, sprig's {{ fail \"…\" }}, {{ index .k N }} of a key that no generated operation writes) and texts that text/template rejects when it parses them, whatever else they hold (an opening `{{` that no `}}` follows; {{ end }}, {{ else }}, {{ if }}, {{ range }} on their own; {{ nosuchfunc }})",
+			"template semantics owned by the model: literal text and data references to scalars only — the field chain {{ .a.b }}, the same on the root variable {{ $.a.b }}, the index function with one identifier key on dot or on $ ({{ index $ \"k\" }}), all read as the chain; strconv.ParseBool table applied to the rendered text with the white space strings.TrimSpace strips taken off (unicode.IsSpace: NBSP, NEL, U+2003 … included — the model's `trim` lists the same characters); any other action makes the rendering fail in the model — of those the generators use only actions that fail in text/template on every data once the template is executed ({{ template \"nope\" }} with no associated template defined, sprig's {{ fail \"…\" }}, {{ index .k N }} of a key that no generated operation writes) and texts that text/template rejects when it parses them, whatever else they hold (an opening `{{` that no `}}` follows; {{ end }}, {{ else }}, {{ if }}, {{ range }} on their own; {{ nosuchfunc }})",
 			"sibling order values are distinct and small (no overflow in the a.Order-b.Order comparator)",
 			"EvalBool calls are observed through a TemplateEngine wrapper that delegates to the library's own default engine",
 			"error identity: the returned error is compared with == against the errors passed to OnAfter; error texts are not compared (except the rendered abort message)",
@@ -350,6 +350,23 @@ func c12Run(c *Ctx) {
 		c.Tick()
 		c.Do("deep", c12GenDeep(r))
 	}
+	// EQUIVALENT SPELLINGS of a condition that reads data: random trees whose data-reading conditions are written as
+	// {{ $.k }}, {{ index . "k" }}, {{ index $ "k" }} instead of {{ .k }} (c12_spell.go), alone and in sequences
+	for i := 0; i < c.N(300); i++ {
+		c.Tick()
+		var others, tpls []string
+		root := c12RandTree(r, "r", 0, 1+r.Intn(3), 1+r.Intn(3), &others, &tpls)
+		c12RespellConds(r, &root)
+		c.Do("tree", c12Case{Data: c12Data(), Root: root})
+	}
+	for i := 0; i < c.N(100); i++ {
+		c.Tick()
+		p := c12GenSeq(r)
+		for j := range p.Roots {
+			c12RespellConds(r, &p.Roots[j])
+		}
+		c.Do("seq", p)
+	}
 }
 
 func c12Count(a *c12Act) (acts, ops int) {
@@ -404,6 +421,7 @@ func c12Eval(c *Ctx, kind string, raw []byte) {
 	}
 	c.Dist(fmt.Sprintf("actions:%d", min(acts, 12)))
 	c.Dist(fmt.Sprintf("depth:%d", c12Depth(&p.Root)))
+	c12DistSpellings(c, &p.Root)
 
 	var model any
 	if !c.searchMode {
@@ -627,7 +645,7 @@ func c12CondClass(w *string, data W) string {
 		m, _ := wireCont(data)
 		return canon(m[k]) == canon(map[string]any{"t": "bool", "v": want})
 	}
-	switch t := strings.TrimSpace(*w); t {
+	switch t := c12CanonRead(strings.TrimSpace(*w)); t {
 	case "true", "1", "T", "True", "TRUE", "t":
 		return "true"
 	case "false", "0", "F", "False", "FALSE", "f":
